@@ -22,6 +22,10 @@
 (*  - decrypt_raw derived the file key of revisions 2-4 from the supplied password itself, also when   *)
 (*    it authenticated as the owner password (Dev_h12),                                              *)
 (*  - encrypt_object / decrypt_object did not descend into stream dictionaries (Dev_h13).             *)
+(*  - an Identity / absent StmF, StrF falls back to RC4 (Dev_identity); EncryptMetadata false is honoured below V 4   *)
+(*    (Dev_emBelowV4); an Encrypt dictionary written directly in the trailer is not seen (Dev_encDirect); a signature  *)
+(*    dictionary's Contents is run through the cipher (Dev_sig); a Crypt filter without decode parameters is not       *)
+(*    Identity (Dev_cryptNoParams),                                                                                   *)
 (*  - PasswordAlgorithm::try_from rejects a Length entry when V < 2 or outside 40..128 (so /Length 256 with   *)
 (*    V 5 and /Length 40 with V 1) and takes 40 bits for revisions 3-4 when there is none (so V 4 without      *)
 (*    Length) (Dev_length).                                                                              *)
@@ -38,7 +42,8 @@
 (* of the declarative layer.                                                                        *)
 EXTENDS SecurityAlgorithms, TLC, Json
 
-CONSTANTS Thorough, Mut, Dev_h12, Dev_h13, Dev_ownerAbsent, Dev_length, Dev_tableCache, Emit
+CONSTANTS Thorough, Mut, Dev_h12, Dev_h13, Dev_ownerAbsent, Dev_length, Dev_tableCache,
+          Dev_identity, Dev_emBelowV4, Dev_encDirect, Dev_sig, Dev_cryptNoParams, Emit
 
 VARIABLES pc, cfg, absent, pws, w, try, res, todo, chk,
           hist,   \* the one-byte encodings the process converted text to before any judged computation, in call order
@@ -54,6 +59,11 @@ Cfgs ==
     \cup {C(3, 2, b, TRUE, "V2", "V2") : b \in (IF Thorough THEN {40 + 8 * i : i \in 0..11} ELSE {40, 64, 128})}
     \cup {C(4, 4, 128, m, sm, sr) : m \in BOOLEAN, sm \in {"V2", "AESV2"}, sr \in {"V2", "AESV2"}}
     \cup {C(r, 5, 256, m, "AESV3", "AESV3") : r \in {5, 6}, m \in BOOLEAN}
+    \* the standard crypt filter Identity as stream and / or string filter (explored with few password classes)
+    \cup {C(4, 4, 128, m, sm, sr) : m \in (IF Thorough THEN BOOLEAN ELSE {TRUE}),
+                                   <<sm, sr>> \in {<<"Identity", "AESV2">>, <<"AESV2", "Identity">>, <<"Identity", "V2">>, <<"Identity", "Identity">>}}
+    \cup {C(r, 5, 256, m, sm, sr) : r \in {5, 6}, m \in (IF Thorough THEN BOOLEAN ELSE {TRUE}), <<sm, sr>> \in {<<"Identity", "AESV3">>, <<"AESV3", "Identity">>}}
+IsIdCfg(c) == "Identity" \in {c.stmf, c.strf}
 
 (* password classes: segments = bytes [0,32), [32,127), [127,..) of the prepared password *)
 K32 == Seg("K", 32)
@@ -109,11 +119,13 @@ Owners(R, u) == IF u \in Straddle THEN {PwO, u}
                 ELSE IF u \in TextPws THEN {PwE, PwO, u}
                 ELSE {PwE, PwO, u, PwX32, PwL127} \cup (IF R >= 5 /\ u = PwU THEN Straddle ELSE {})
                                                  \cup (IF R <= 4 /\ u = PwU THEN {PrepR234(<<"bullet", "a", "dagger">>), PrepR234(<<"euro">>)} ELSE {})
+UsersC(c) == IF IsIdCfg(c) THEN {PwE, PwU} ELSE Users(c.R)
+OwnersC(c, u) == IF IsIdCfg(c) THEN {PwE, PwO, u} ELSE Owners(c.R, u)
 Attempts(p) == {p.user, p.owner, PwW, PwE, PwX32, PwL127} \cup Near(p.user) \cup Near(p.owner)
                \cup (IF {p.user, p.owner} \cap TextPws # {} THEN TextPws ELSE {})
 
 ItemSeq == <<"str.dict", "str.nested", "str.top", "str.streamdict", "stream", "stream.meta",
-             "stream.xref", "str.encdict", "str.id">>
+             "stream.xref", "str.encdict", "str.id", "str.sigcontents", "stream.cryptid">>
 
 (* symbolic inputs *)
 sP   == Num("P")
@@ -177,11 +189,23 @@ Open(c, d, pw) == IF c.R <= 4 THEN OpenR234(c, d, pw) ELSE OpenR56(c, d, pw)
 -----------------------------------------------------------------------------
 (* strings and streams *)
 KeyOf(c, fk, k) == ObjKey(fk, KeyBytes(c.R, c.bits), sNum, sGen, MethodOf(c, k))
-IsoPayload(c, fk, k)   == IF IsoSubject(k, c.meta) THEN Ct(MethodOf(c, k), KeyOf(c, fk, k), sIv, sPt) ELSE sPt
-IsoRead(c, fk, k, x)   == IF IsoSubject(k, c.meta) THEN Pt(MethodOf(c, k), KeyOf(c, fk, k), x) ELSE x
-LopdfSubject(k, meta)  == IsoSubject(k, meta) /\ ~(Dev_h13 /\ k = "str.streamdict")
-LopdfPayload(c, fk, k) == IF LopdfSubject(k, c.meta) THEN Ct(MethodOf(c, k), KeyOf(c, fk, k), sIv, sPt) ELSE sPt
-LopdfRead(c, fk, k, x) == IF LopdfSubject(k, c.meta) THEN Pt(MethodOf(c, k), KeyOf(c, fk, k), x) ELSE x
+IsoPayload(c, fk, k)   == IF Subject(c, k) THEN Ct(MethodOf(c, k), KeyOf(c, fk, k), sIv, sPt) ELSE sPt
+IsoRead(c, fk, k, x)   == IF Subject(c, k) THEN Pt(MethodOf(c, k), KeyOf(c, fk, k), x) ELSE x
+\* lopdf-shaped: get_stream_filter / get_string_filter fall back to RC4 for a name that is not in CF - Identity and
+\* "" (no StmF / StrF) never are (Dev_identity); the dictionary walk has no exception for a signature's Contents
+\* (Dev_sig); the Identity default of a Crypt filter is only reached when a parameter dictionary exists
+\* (Dev_cryptNoParams); no descent into stream dictionaries (Dev_h13)
+LopdfMethodOf(c, k) == IF Dev_identity /\ MethodOf(c, k) = "Identity" THEN "V2" ELSE MethodOf(c, k)
+LopdfSubject(c, k) ==
+    CASE k = "str.sigcontents" -> Dev_sig
+      [] k = "stream.cryptid" -> c.V < 4 \/ Dev_cryptNoParams
+      [] OTHER -> IsoSubject(k, c.meta) /\ ~(Dev_h13 /\ k = "str.streamdict")
+LopdfKeyOf(c, fk, k)   == ObjKey(fk, KeyBytes(c.R, c.bits), sNum, sGen, LopdfMethodOf(c, k))
+LopdfPayload(c, fk, k) == IF LopdfSubject(c, k) THEN Ct(LopdfMethodOf(c, k), LopdfKeyOf(c, fk, k), sIv, sPt) ELSE sPt
+LopdfRead(c, fk, k, x) == IF LopdfSubject(c, k) THEN Pt(LopdfMethodOf(c, k), LopdfKeyOf(c, fk, k), x) ELSE x
+\* the transformation each side applies to an item of kind k
+IEff(c, k) == IF Subject(c, k) THEN MethodOf(c, k) ELSE "Identity"
+LEff(c, k) == IF LopdfSubject(c, k) THEN LopdfMethodOf(c, k) ELSE "Identity"
 
 -----------------------------------------------------------------------------
 NoChk == [k |-> "none", isoiso |-> TRUE, g |-> TRUE, v |-> TRUE]
@@ -205,7 +229,7 @@ Configure ==
 
 WriteDict ==
     /\ pc = "cfg"
-    /\ \E u \in Users(cfg.R) : \E o \in Owners(cfg.R, u) :
+    /\ \E u \in UsersC(cfg) : \E o \in OwnersC(cfg, u) :
           /\ cfg.R <= 4 => ((o = PwE) <=> absent)
           /\ pws' = [user |-> u, owner |-> o]
           /\ w' = [iso |-> IsoWrite(cfg, pws'), lopdf |-> LopdfWrite(cfg, pws')]
@@ -286,7 +310,7 @@ Shapes == pc \in {"written", "opened", "done"} =>
             /\ TLen(w.iso.O) = (IF cfg.R <= 4 THEN 32 ELSE 48) /\ TLen(w.iso.U) = TLen(w.iso.O)
             /\ TLen(w.iso.fk) = KeyBytes(cfg.R, cfg.bits)
             /\ cfg.R >= 5 => TLen(w.iso.OE) = 32 /\ TLen(w.iso.UE) = 32 /\ TLen(w.iso.Perms) = 16
-            /\ TLen(KeyOf(cfg, w.iso.fk, "stream")) = (IF cfg.R >= 5 THEN 32 ELSE Min(KeyBytes(cfg.R, cfg.bits) + 5, 16))
+            /\ cfg.stmf # "Identity" => TLen(KeyOf(cfg, w.iso.fk, "stream")) = (IF cfg.R >= 5 THEN 32 ELSE Min(KeyBytes(cfg.R, cfg.bits) + 5, 16))
 
 (* password preparation is a function of the text alone *)
 PrepIsFunction == pc = "prepared" => prep.l = prep.d
@@ -324,8 +348,31 @@ ImplDictRefines == pc \in {"written", "opened", "done"} =>
 ImplKeyRefines == Opened /\ (res.iso.isUser \/ res.iso.isOwner) => ((res.iso.lfk = w.iso.fk) <=> ~DevH12Here)
 \* ISO writer + lopdf-shaped reader (direction G), lopdf-shaped writer + ISO reader (direction V)
 ImplItemRefines == chk.k # "none" =>
-    /\ chk.g <=> ~((DevH12Here /\ IsoSubject(chk.k, cfg.meta)) \/ DevH13Here(chk.k))
-    /\ (res.v.isUser \/ res.v.isOwner) => (chk.v <=> ~DevH13Here(chk.k))
+    /\ chk.g <=> ~((DevH12Here /\ LEff(cfg, chk.k) # "Identity") \/ LEff(cfg, chk.k) # IEff(cfg, chk.k))
+    /\ (res.v.isUser \/ res.v.isOwner) => (chk.v <=> LEff(cfg, chk.k) = IEff(cfg, chk.k))
+\* the two sides treat a kind of item differently exactly in the classes the switches name
+DevIdentityHere(c, k)  == Dev_identity /\ Subject(c, k) /\ MethodOf(c, k) = "Identity" /\ LopdfSubject(c, k)
+DevH13Cls(c, k)        == Dev_h13 /\ k = "str.streamdict" /\ MethodOf(c, k) # "Identity"
+DevSigHere(c, k)       == Dev_sig /\ k = "str.sigcontents" /\ LopdfMethodOf(c, k) # "Identity"
+DevCryptHere(c, k)     == Dev_cryptNoParams /\ k = "stream.cryptid" /\ c.V >= 4 /\ LopdfMethodOf(c, k) # "Identity"
+ImplItemClasses == pc = "cfg" => \A k \in ItemKinds :
+    (LEff(cfg, k) # IEff(cfg, k)) <=> (DevH13Cls(cfg, k) \/ DevIdentityHere(cfg, k) \/ DevSigHere(cfg, k) \/ DevCryptHere(cfg, k))
+
+(* the forms of the encryption dictionary: every legal form means the configuration (declarative); lopdf-shaped:     *)
+(* Document::get_encrypted sees only a referenced dictionary (Dev_encDirect), EncryptMetadata is taken at its word    *)
+(* whatever V is (Dev_emBelowV4), an Identity / absent filter name falls back to RC4 (Dev_identity)                  *)
+CfgView(c) == [seen |-> TRUE, meta |-> c.meta, stmf |-> c.stmf, strf |-> c.strf]
+FormAgreement == pc = "cfg" => \A f \in Forms(cfg) : IsoView(cfg.V, Entries(cfg, f)) = CfgView(cfg)
+LopdfView(V, e) ==
+    LET iso == IsoView(V, e)
+        m(x) == IF Dev_identity /\ x = "Identity" THEN "V2" ELSE x
+    IN [seen |-> ~(Dev_encDirect /\ e.enc = "direct"),
+        meta |-> IF Dev_emBelowV4 THEN e.em # "false" ELSE iso.meta,
+        stmf |-> m(iso.stmf), strf |-> m(iso.strf)]
+DevFormHere(c, f) == \/ Dev_encDirect /\ f = "enc.direct"
+                     \/ Dev_emBelowV4 /\ f = "em.false"
+                     \/ Dev_identity /\ c.V >= 4 /\ IsIdCfg(c)
+ImplFormRefines == pc = "cfg" => \A f \in Forms(cfg) : (LopdfView(cfg.V, Entries(cfg, f)) = IsoView(cfg.V, Entries(cfg, f))) <=> ~DevFormHere(cfg, f)
 \* a document lopdf wrote opens in the ISO reader with the passwords it was written with
 ImplOpens == Opened /\ try \in {pws.user, OwnerEff(cfg.R, pws)}
                => (res.v.isUser \/ res.v.isOwner) /\ res.v.fk = w.lopdf.fk /\ res.v.permsOk
@@ -382,6 +429,7 @@ Defs(c, ab) ==
                  D("r.perms.ok", PermsValid(fk, Ref("Perms", 16), sP, c.meta))>> \o ItemDefs(c, n, fk)
 
 \* split = 1: the segment ends inside a multi-byte character
+FormSeq == <<"canon", "enc.direct", "em.false", "stmf.absent", "strf.absent">>
 \* the legal Length entries in ascending order
 SetToSeqLen(S) == LET lo == CHOOSE x \in S : \A y \in S : x <= y
                   IN IF Cardinality(S) = 1 THEN <<lo>> ELSE <<lo, CHOOSE x \in S : x # lo>>
@@ -392,7 +440,10 @@ SegsJson(p) == [i \in 1..Len(p.a) |-> [id |-> p.a[i].s, len |-> p.a[i].n[1],
 EmitInv ==
     /\ (Emit /\ pc = "cfg") =>
           PrintT(<<"TERMS", ToJson([cfg |-> cfg, absent |-> absent, ucmp |-> UCmpLen(cfg.R),
-                                    subjects |-> [k \in ItemKinds |-> IsoSubject(k, cfg.meta)],
+                                    subjects |-> [k \in ItemKinds |-> Subject(cfg, k)],
+                                    forms |-> LET fs == SelectSeq(FormSeq, LAMBDA f : f \in Forms(cfg))
+                                              IN [i \in 1..Len(fs) |-> [f |-> fs[i], cls |-> FormClass(cfg, fs[i]), dev |-> DevFormHere(cfg, fs[i])]],
+                                    devItems |-> [k \in ItemKinds |-> LEff(cfg, k) # IEff(cfg, k)],
                                     lengths |-> SetToSeqLen(LegalLengths(cfg)), canonLength |-> CanonLength(cfg),
                                     lengthModel |-> [i \in 1..Cardinality(LegalLengths(cfg)) |->
                                                        LET len == SetToSeqLen(LegalLengths(cfg))[i]
